@@ -260,6 +260,8 @@ INVOKE_PAGES = [
     ("{{wrap|x}} {{wrap|y}}", "<L(x)> <L(y)>", "<{{#invoke:m|f|x}}> <{{#invoke:m|f|y}}>", ["wrap", "wrap"]),
     ("{{box|{{#invoke:m|f}}}}{{box|b}}", "[L()][b]", "[{{#invoke:m|f}}][b]", ["box", "box"]),
     ("{{wrap|{{box|q}}}}{{wrap|z}}", "<L([q])><L(z)>", "<{{#invoke:m|f|[q]}}><{{#invoke:m|f|z}}>", ["box", "wrap", "wrap"]),
+    ("{{#invoke:m|f|{{box|q}}}}", "L([q])", "{{#invoke:m|f|[q]}}", ["box"]),
+    ("{{#invoke:m|f|k={{box|q}}|{{box|r}}}} {{box|s}}", "L([r]) [s]", "{{#invoke:m|f|k=[q]|[r]}} [s]", ["box", "box", "box"]),
     ("{{#if:1|{{wrap|a}}}}{{wrap|b}}", "<L(a)><L(b)>", "<{{#invoke:m|f|a}}><{{#invoke:m|f|b}}>", ["wrap", "wrap"]),
 ]
 
@@ -301,7 +303,11 @@ def work_invoke(payload, skip, report):
                     acc.violation("expand_invoke_switch", case, {"call": r + 1, "got": got}, want)
                     break
                 if hook and sorted(calls) != sorted(names):
-                    acc.violation("template_fn_once_per_expanded_call", case, sorted(calls), sorted(names))
+                    # known finding: arguments of an executed #invoke are expanded lazily through frame:preprocess(), a nested
+                    # expand() that does not know the hooks of the outer call
+                    lazy = inv and text.startswith("{{#invoke:m|f|") and "{{box" in text.split("}}", 1)[0] + "}}"
+                    acc.violation("template_fn_for_templates_in_invoke_arguments" if lazy else "template_fn_once_per_expanded_call",
+                                  case, sorted(calls), sorted(names))
                     break
     close_ctx(ctx)
     return acc
